@@ -126,15 +126,17 @@ Fixpoint heads_ok (gs : list (list bytes)) : Prop :=
 Lemma ref_groups_shape ls : Forall group_shape (ref_groups ls) /\ heads_ok (ref_groups ls) /\
   match ref_groups ls, ls with (h :: _) :: _, l :: _ => h = l | [], [] => True | _, _ => False end.
 Proof.
-  induction ls as [|l r IH]; cbn [ref_groups]; [repeat split; constructor|].
-  destruct IH as (Hs & Hh & Hd). destruct (ref_groups r) as [|g gs] eqn:E.
-  - repeat split; [constructor; [constructor|constructor]|].
-    cbn. tauto.
-  - destruct r as [|n r']; [destruct g; contradiction|]. destruct g as [|h g']; [contradiction|]. subst h.
-    cbn [ref_next_is_cont]. destruct (ref_is_cont n) eqn:En.
-    + inversion Hs as [|? ? Hg Hgs]; subst. repeat split; [|exact Hh].
-      constructor; [|exact Hgs]. cbn [group_shape] in *. constructor; [exact En|exact Hg].
-    + repeat split; [constructor; [constructor|exact Hs]|]. cbn [heads_ok]. split; [exact En|exact Hh].
+  induction ls as [|l r IH]; cbn [ref_groups].
+  - split; [constructor|]. split; exact I.
+  - destruct IH as (Hs & Hh & Hd). destruct (ref_groups r) as [|g gs] eqn:E.
+    + split; [constructor; [cbn; constructor|constructor]|]. split; [cbn; tauto|reflexivity].
+    + destruct r as [|n r']; [destruct g; contradiction|]. destruct g as [|h g']; [contradiction|]. subst h.
+      cbn [ref_next_is_cont]. pose proof (Forall_inv Hs) as Hg. pose proof (Forall_inv_tail Hs) as Hgs.
+      destruct (ref_is_cont n) eqn:En.
+      * split; [|split; [exact Hh|reflexivity]].
+        constructor; [|exact Hgs]. cbn [group_shape] in *. constructor; [exact En|exact Hg].
+      * split; [constructor; [cbn; constructor|exact Hs]|]. split; [|reflexivity].
+        cbn [heads_ok]. split; [exact En|exact Hh].
 Qed.
 
 (* ================================================================== 3. one line *)
@@ -164,8 +166,8 @@ Proof.
     + destruct relaxed; cbn [negb andb orb]; [|reflexivity].
       rewrite lenN_map. destruct (lenN fe =? 1), cont; reflexivity.
     + cbn [andb negb]. rewrite orb_true_r. cbn [andb].
-      replace (if relaxed then map cr_to_sp fe else fe) with fe by (destruct relaxed; [now rewrite cr_map_id|reflexivity]).
-      destruct (lenN fe =? 1), cont; reflexivity.
+      rewrite (cr_map_id fe Eb).
+      destruct relaxed, (lenN fe =? 1), cont; reflexivity.
 Qed.
 
 (* ================================================================== 4. field-line split *)
